@@ -22,7 +22,8 @@ EXTENDS GroupBySem, IOUtils, SequencesExt
 CONSTANTS PairSrc,   \* "all": every (G, M) over Keys; "file": the pairs accepted by the implementation
           CtxU,      \* name of the universe of contexts
           MaxFlow,   \* flows of 0..MaxFlow values
-          KeyU       \* "six": keys "", a, b, a.b, a.c, a.b.c; "five": without a.c
+          KeyU,      \* "six": keys "", a, b, a.b, a.c, a.b.c; "five": without a.c
+          Writ       \* the orders in which a key set is written: "all", or "ends" (shortest first / deepest first)
 
 Keys == {<<>>, <<"a">>, <<"b">>, <<"a", "b">>, <<"a", "b", "c">>} \cup (IF KeyU = "six" THEN {<<"a", "c">>} ELSE {})
 \* the root (empty) key must be in exactly one of group_by and merge; no key in both
@@ -31,6 +32,26 @@ AllPairs(u) == {gm \in (SUBSET Keys) \X (SUBSET Keys) :
 SetOf(s) == {s[i] : i \in DOMAIN s}
 FilePairs(u) == LET j == JsonDeserialize(IOEnv.GM_FILE) IN {<<SetOf(j[i].G), SetOf(j[i].M)>> : i \in DOMAIN j}
 GMs == IF PairSrc = "all" THEN AllPairs(PairSrc) ELSE FilePairs(PairSrc)
+
+(***************************************************************************)
+(* group_by and merge are *sets* of keys, but the user writes them as      *)
+(* sequences - in any order.  A writing is a pair of sequences [g, m]      *)
+(* enumerating G and M.  SelectedW finds the longest listed prefix by one  *)
+(* scan through a writing; WritingIrrelevant: the order does not matter.   *)
+(***************************************************************************)
+Perms(S) == {f \in [1..Cardinality(S) -> S] : \A i, j \in 1..Cardinality(S) : i # j => f[i] # f[j]}
+Asc(S) == CHOOSE f \in Perms(S) : \A i, j \in 1..Len(f) : i < j => Len(f[i]) <= Len(f[j])
+Rev(f) == [i \in 1..Len(f) |-> f[Len(f) + 1 - i]]
+Writings(g, m) == IF Writ = "all" THEN {[g |-> a, m |-> b] : a \in Perms(g), b \in Perms(m)}
+                  ELSE {[g |-> Asc(g), m |-> Asc(m)], [g |-> Rev(Asc(g)), m |-> Rev(Asc(m))]}
+Entries(w) == [i \in 1..(Len(w.g) + Len(w.m)) |-> IF i <= Len(w.g) THEN [key |-> w.g[i], inc |-> TRUE]
+                                                  ELSE [key |-> w.m[i - Len(w.g)], inc |-> FALSE]]
+RECURSIVE ScanBest(_, _, _, _)
+ScanBest(p, es, i, best) ==
+  IF i > Len(es) THEN best
+  ELSE ScanBest(p, es, i + 1, IF PrefixOf(es[i].key, p) /\ Len(es[i].key) > best.n
+                              THEN [n |-> Len(es[i].key), inc |-> es[i].inc] ELSE best)
+SelectedW(p, w) == ScanBest(p, Entries(w), 1, [n |-> -1, inc |-> FALSE]).inc
 
 L1 == LInt(1, "1")
 L2 == LInt(2, "2")
@@ -166,6 +187,10 @@ PartitionIsEquivalence == AtStart =>
 \* the fast form of Selected is the literal one
 AllPaths == UNION {[1..n -> {"a", "b", "c"}] : n \in 1..3}
 OwnerIsLongest == AtStart => \A p \in AllPaths : Selected(p, G, M) <=> (Owner(p, G, M) \in G)
+\* the order in which the keys are written does not matter
+WritingIrrelevant == AtStart => \A w \in Writings(G, M) :
+                       /\ SetOf(w.g) = G /\ SetOf(w.m) = M /\ Len(w.g) = Cardinality(G) /\ Len(w.m) = Cardinality(M)
+                       /\ \A p \in AllPaths : SelectedW(p, w) <=> Selected(p, G, M)
 \* default arguments: merge takes priority, everything in one group; whole context otherwise
 DefaultsOneGroup == (G = {} /\ M = {<<>>}) => Len(groups) <= 1
 WholeContext == (G = {<<>>} /\ M = {}) => \A i, j \in Live(base, pos) : (GroupOf(i) = GroupOf(j)) <=> flow[i] = flow[j]
@@ -187,6 +212,8 @@ OwnerStep == pos = 0 => \A p \in AllPaths : Selected(p, G, M) <=> (Owner(p, G, M
 (* Export (S2C).                                                           *)
 (***************************************************************************)
 PathSeq(S) == SetToSeq(S)
+\* the writings of the key sets, for the harness to construct GroupBy with
+WSeq == SetToSeq(Writings(G, M))
 \* the class of every context of the universe (index of a representative of the class), by Sig
 XInit == /\ \E gm \in GMs : G = gm[1] /\ M = gm[2]
          /\ flow = <<>> /\ pos = 0 /\ groups = <<>> /\ base = 0 /\ snaps = <<>>
@@ -195,10 +222,10 @@ XSpec == XInit /\ [][FALSE]_vars
 FirstGM == CHOOSE gm \in GMs : TRUE
 ClsOf(sg) == [i \in 1..NC |-> CHOOSE j \in 1..NC : sg[j] = sg[i]]     \* one representative per class
 EmitClasses ==
-  PrintT(ToJson([G |-> PathSeq(G), M |-> PathSeq(M), cls |-> ClsOf([i \in 1..NC |-> Sig(CtxSeq[i], G, M)]),
+  PrintT(ToJson([G |-> PathSeq(G), M |-> PathSeq(M), W |-> WSeq, cls |-> ClsOf([i \in 1..NC |-> Sig(CtxSeq[i], G, M)]),
                  ctxs |-> IF <<G, M>> = FirstGM THEN CtxSeq ELSE <<>>]))
 \* behaviours of the machine
-EmitFlow == Done => PrintT(ToJson([G |-> PathSeq(G), M |-> PathSeq(M),
+EmitFlow == Done => PrintT(ToJson([G |-> PathSeq(G), M |-> PathSeq(M), W |-> WSeq,
                                    flow |-> [i \in 1..Len(flow) |-> IF IsVal(i) THEN [op |-> "fill", c |-> CtxSeq[flow[i]]]
                                                                      ELSE [op |-> IF flow[i] = 0 THEN "compute" ELSE "reset", c |-> Empty]],
                                    snaps |-> [k \in 1..Len(snaps) |-> snaps[k].groups],
